@@ -483,9 +483,12 @@ def check_history(hist, stop_at_first=True):
             hask_before = [hasattr(s.geometry, 'k') for s in o.surface_group.surfaces]
             valid = op_valid(op, o)
             pre_ua = None
-            if t in ('image_solve', 'solve') and valid:
+            pre_ya = None
+            if (t in ('image_solve', 'solve') or (t == 'update' and len(o.solves))) and valid:
                 try:
-                    pre_ua = [f1(v) for v in o.paraxial.marginal_ray()[1]]
+                    _mr = o.paraxial.marginal_ray()
+                    pre_ya = [f1(v) for v in _mr[0]]
+                    pre_ua = [f1(v) for v in _mr[1]]
                 except Exception:     # noqa
                     pre_ua = None
             try:
@@ -568,6 +571,7 @@ def check_history(hist, stop_at_first=True):
                 if bad and pre_ua is not None and op[1] >= 1 and abs(pre_ua[op[1] - 1]) <= 1e-9:
                     bad = None       # precondition: the ray arriving at the surface is not parallel to the axis
                 if bad:
+                    bad['launch_changed'] = launch_changed(o, pre_ya, pre_ua)
                     V(**bad)
             elif t == 'update' and not structural:
                 pks = [[p.source_surface_idx, p.attr_type, p.target_surface_idx, p.scale, p.offset]
@@ -581,6 +585,7 @@ def check_history(hist, stop_at_first=True):
                         break
                 bad = solve_violation(o, svs, pks, 'update')
                 if bad:
+                    bad['launch_changed'] = launch_changed(o, pre_ya, pre_ua)
                     V(**bad)
                 mc = media_chain(o)
                 if mc is not None:
@@ -656,6 +661,16 @@ def pickup_dependency(pi, pks, svs, o):
                 return True
     # an earlier pickup with the same target is overwritten by this one: not this pickup's problem
     return False
+
+
+def launch_changed(o, pre_ya, pre_ua):
+    """did the call change the marginal ray in object space (entrance pupil moved for a finite object, or the
+    entrance pupil diameter changed for an F-number / NA aperture)?  A solve computed from the old ray cannot
+    meet its height then."""
+    if pre_ya is None or pre_ua is None:
+        return None
+    ya, ua = o.paraxial.marginal_ray()
+    return not (feq(f1(ya[0]), pre_ya[0], 1e-9) and feq(f1(ua[0]), pre_ua[0], 1e-9))
 
 
 def solve_violation(o, svs, pks, stage):
